@@ -12,25 +12,31 @@ Proof. exact exact_refuted. Qed.
 
 (* ... and proved for every predicate tree and every database with unique child names under the
    explicit guard `safe` (no inverted NamedQuery in a name merge, Or-merges over equal tables,
-   no negated info test) *)
+   no negated info test, no negated attribute test) *)
 Theorem C10_exact_partial : forall p q f,
   compile current p = Ok q -> safe current p = true -> wf_fit f = true -> sem q f = eval p f.
-Proof. exact (compile_exact current true (or_introl eq_refl)). Qed.
+Proof. exact (fun p q f Hq Hs W => compile_exact current true true (or_introl eq_refl) p q f Hq Hs W (or_introl eq_refl)). Qed.
+
+(* negated attribute tests are exact too when no attribute column holds NULL *)
+Theorem C10_exact_partial_no_null : forall p q f,
+  compile current p = Ok q -> safe_with current true true true false p = true -> wf_fit f = true ->
+  attrs_defined f = true -> sem q f = eval p f.
+Proof. exact (fun p q f Hq Hs W D => compile_exact current true false (or_introl eq_refl) p q f Hq Hs W (or_intror D)). Qed.
 
 (* result lists: exactly the satisfying fits, in database order, each once *)
 Theorem C10_select_partial : forall p q db,
   compile current p = Ok q -> safe current p = true -> forallb wf_fit db = true ->
   select q db = filter (eval p) db.
-Proof. exact (select_exact current true (or_introl eq_refl)). Qed.
+Proof. exact (fun p q db Hq Hs W => select_exact current true true (or_introl eq_refl) p q db Hq Hs W (or_introl eq_refl)). Qed.
 
 Theorem C10_each_once : forall q db, NoDup (map fid db) -> NoDup (map fid (select q db)).
 Proof. exact select_nodup. Qed.
 
 (* after the repair of _match_conditions the guard no longer mentions inverted queries *)
 Theorem C10_exact_repaired_partial : forall p q f,
-  compile repaired p = Ok q -> safe_with repaired false true true p = true -> wf_fit f = true ->
+  compile repaired p = Ok q -> safe_with repaired false true true true p = true -> wf_fit f = true ->
   sem q f = eval p f.
-Proof. exact (compile_exact repaired false (or_intror eq_refl)). Qed.
+Proof. exact (fun p q f Hq Hs W => compile_exact repaired false true (or_intror eq_refl) p q f Hq Hs W (or_introl eq_refl)). Qed.
 
 Theorem C10_exact_repaired_refuted :
   exists p q f, compile repaired p = Ok q /\ wf_pred p = true /\ wf_fit f = true /\ sem q f <> eval p f.
